@@ -2,7 +2,7 @@
 from vf import Query
 from common import R_ASSUME
 
-UNITS = ['kit:kitfull.c', 'repo:lib/srfi/69/hash.c|sexp_string_hash=sexp_string_hash_srfi69', 'repo:bignum.c', 'kit:env.c', 'kit:libc_models.c']
+UNITS = ['kit:kitfull.c', 'repo:lib/srfi/69/hash.c|sexp_string_hash=sexp_string_hash_srfi69', 'repo:bignum.c', 'kit:env.c', 'kit:exc_models.c', 'kit:libc_models.c']
 UD = {'KIT_REAL_SEXP': 1}
 EXC = ['sexp_alloc_tagged_aux', 'sexp_type_exception', 'sexp_xtype_exception', 'sexp_range_exception', 'sexp_user_exception', 'sexp_user_exception_ls']
 KINDS = {'fixnum': 1, 'flonum': 2, 'big1': 3, 'big2': 4, 'string': 5, 'bytes': 6, 'pair': 7, 'vector': 8, 'symbol': 9, 'char': 10}
